@@ -43,6 +43,8 @@ SOpenWrite   == More /\ E.a = "OpenWrite" /\ OpenWrite(E.b, E.x) /\ Adv(E)
 SOpenRead    == More /\ E.a = "OpenRead" /\ OpenRead(E.b) /\ Adv(E)
 SCloseAll    == More /\ E.a = "CloseAll" /\ CloseAll /\ Adv(E)
 SBoundary    == More /\ E.a = "Boundary" /\ Boundary /\ Adv(E)
+SUnlink      == More /\ E.a = "Unlink" /\ Unlink(E.b) /\ Adv(E)
+SRelink      == More /\ E.a = "Relink" /\ Relink(E.b) /\ Adv(E)
 SModifyP     == More /\ E.a = "ModifyP" /\ ModifyP(E.v) /\ Adv(E)
 SSavepoint   == More /\ E.a = "Savepoint" /\ Savepoint /\ Adv(E)
 SRollback    == More /\ E.a = "Rollback" /\ Rollback(E.k) /\ Adv(E)
@@ -69,7 +71,7 @@ SPack        == More /\ E.a = "Pack" /\ Pack(KTid(E.T)) /\ Adv([E EXCEPT !.T = K
 
 SStep == \/ SPackDuring \/ SCreateBlob \/ SRewrite \/ SAppend \/ SConsumeFile \/ SConsumeFail \/ SModifyP \/ SSavepoint \/ SRollback \/ SAbortTxn
          \/ STpcBegin \/ SStoreOK \/ SStoreFail \/ SUStoreOK \/ SUStoreFail \/ SVote \/ SFinish \/ SConnAbort
-         \/ STpcAbort \/ SOtherCommit \/ SUBegin \/ SPack \/ SUCopyFail \/ SStoreFault \/ SOpenWrite \/ SOpenRead \/ SCloseAll \/ SBoundary \/ SWrong \/ SOtherAbort \/ SOtherFinish \/ SLate
+         \/ STpcAbort \/ SOtherCommit \/ SUBegin \/ SPack \/ SUCopyFail \/ SUnlink \/ SRelink \/ SStoreFault \/ SOpenWrite \/ SOpenRead \/ SCloseAll \/ SBoundary \/ SWrong \/ SOtherAbort \/ SOtherFinish \/ SLate
 \* (the enabling condition of Pack is written out: ENABLED would evaluate the packer a second time)
 PackDuringEnabled(T) == Flavour = "wrapmap" /\ txn.who # "none" /\ txn.phase \in {"stored", "voted"} /\ aux.late = "none" /\ T \in 1..clk
 PackEnabled(T) == HasPack /\ Idle /\ aux.late = "none" /\ IsClean(con) /\ T \in 1..clk
